@@ -95,8 +95,11 @@ def _run_case(ctx, case, op):
         want = op_cells(a) + op_cells(b)
         if isinstance(a, str) and isinstance(b, str):
             return
+        va, vb = operand(a), operand(b)
+        if case.get("same_object") and a == b:
+            vb = va
         try:
-            r = operand(a) + operand(b)
+            r = va + vb
         except Exception as e:  # noqa
             ctx.judge(False, case, mech="C06:add", expected=obs.show(want), got=repr(e))
             return
@@ -104,11 +107,16 @@ def _run_case(ctx, case, op):
         ok = got == want and len(r) == len(want) and r.s == obs.text_of(want)
         ctx.judge(ok, case, mech="C06:add", expected=obs.show(want), got=obs.show(got),
                   nontrivial=bool(want))
+        for v, d in ((va, a), (vb, b)):
+            if not isinstance(v, str) and obs.cells(v) != op_cells(d):
+                ctx.judge(False, case, mech="C06:operand-changed", expected=obs.show(op_cells(d)),
+                          got=obs.show(obs.cells(v)))
     elif op == "mul":
         A = obs.spec_cells(case["spec"])
         want = A * case["n"]
+        f = obs.build(case["spec"])
         try:
-            r = obs.build(case["spec"]) * case["n"]
+            r = f * case["n"]
         except Exception as e:  # noqa
             ctx.judge(False, case, mech="C06:mul", expected=obs.show(want), got=repr(e))
             return
@@ -116,6 +124,8 @@ def _run_case(ctx, case, op):
         ok = got == want and len(r) == len(want) and r.s == obs.text_of(want)
         ctx.judge(ok, case, mech="C06:mul", expected=obs.show(want), got=obs.show(got),
                   nontrivial=bool(want))
+        if obs.cells(f) != A:
+            ctx.judge(False, case, mech="C06:operand-changed", expected=obs.show(A), got=obs.show(obs.cells(f)))
     elif op == "join":
         sep, items = case["sep"], case["items"]
         S = obs.spec_cells(sep)
@@ -124,8 +134,14 @@ def _run_case(ctx, case, op):
             if k:
                 want += S
             want += op_cells(it)
+        vsep = obs.build(sep)
+        vitems = []
+        for k, it in enumerate(items):
+            # the same object may be listed more than once (case["alias"] = [[i, j], ...])
+            src = next((j for i, j in case.get("alias", []) if i == k), None)
+            vitems.append(vitems[src] if src is not None and src < k and items[src] == it else operand(it))
         try:
-            r = obs.build(sep).join([operand(i) for i in items])
+            r = vsep.join(vitems)
         except Exception as e:  # noqa
             ctx.judge(False, case, mech="C06:join", expected=obs.show(want), got=repr(e))
             return
@@ -133,6 +149,11 @@ def _run_case(ctx, case, op):
         ok = got == want and len(r) == len(want) and r.s == obs.text_of(want)
         ctx.judge(ok, case, mech="C06:join", expected=obs.show(want), got=obs.show(got),
                   nontrivial=bool(want))
+        for v, d in [(vsep, sep)] + list(zip(vitems, items)):
+            if not isinstance(v, str) and obs.cells(v) != op_cells(d):
+                ctx.judge(False, case, mech="C06:operand-changed", expected=obs.show(op_cells(d)),
+                          got=obs.show(obs.cells(v)))
+                break
     else:
         raise ValueError(op)
 
@@ -173,6 +194,9 @@ def run(ctx):
             sb = obs.spec_for_lengths(lb, first_letter=13, palette_offset=5)
             run_case(ctx, {"op": "add", "a": sa, "b": sb})
             ctx.count("adds")
+        n += 1
+        if ctx.mine(n):
+            run_case(ctx, {"op": "add", "a": sa, "b": sa, "same_object": True})
         for s in strs:
             n += 1
             if ctx.mine(n):
@@ -188,7 +212,12 @@ def run(ctx):
         for _ in range(rng.randint(0, 3)):
             items.append(rng.choice(strs) if rng.random() < .4
                          else obs.rand_spec(rng, 3, 2, "abc", palette=pal))
-        run_case(ctx, {"op": "join", "sep": sep, "items": items})
+        case = {"op": "join", "sep": sep, "items": items}
+        if len(items) >= 2 and rng.random() < .3:
+            j = rng.randrange(len(items) - 1)
+            items[-1] = items[j]
+            case["alias"] = [[len(items) - 1, j]]
+        run_case(ctx, case)
         ctx.count("joins")
     for _ in range(ctx.share(3000 if quick else 150000)):
         spec = obs.rand_spec(rng, 6, 5, "abcdefg一\n", palette=pal)
